@@ -169,6 +169,7 @@ def pick_value(rng, kind_char, n):
 
 CALLBACK_SHARES = []
 CONVERSION_SHARES = []
+ARG_MUTATED = []
 
 
 def call_frame(rng, df, m, pool):
@@ -195,12 +196,17 @@ def call_frame(rng, df, m, pool):
     if m in ("filter_tracked", "filter_out_tracked"):
         # the caller's own mask object (kept, and looked at again afterwards), together with a column=value pair
         mask = np.array([rng.random() < 0.7 for _ in range(n)], dtype=bool).view(di.Vector)
-        pool.append(Entry(mask, "vector", f"mask{len(pool)}", "mask argument"))
+        kept = mask.copy()
         c = one(); v = df[c][0] if n else 0
         f = df.filter if m == "filter_tracked" else df.filter_out
         form = rng.choice(["vector", "lambda"])
         out = f(mask, **{c: v}) if form == "vector" else f(lambda x: mask, **{c: v})
-        return f"{m}({form} mask, {c}=first)", out, [len(pool) - 1]
+        # (the mask is looked at here rather than put into the pool: the heap model numbers the pool objects)
+        if not np.array_equal(np.asarray(mask), np.asarray(kept)):
+            ARG_MUTATED.append(f"{form} mask")
+        if isinstance(out, di.DataFrame) and any(np.shares_memory(col, mask) for col in out.values()):
+            ARG_MUTATED.append(f"{form} mask shared with the result")
+        return f"{m}({form} mask, {c}=first)", out, []
     if m == "filter_owncol":
         # a boolean column of the receiver itself as the condition, together with a column=value pair
         bools = [c for c in cols if df[c].dtype == bool]
@@ -360,6 +366,7 @@ def impl(case):
         result, args = None, []
         del CALLBACK_SHARES[:]
         del CONVERSION_SHARES[:]
+        del ARG_MUTATED[:]
         try:
             if step["on"] == "frame":
                 ev["desc"], result, args = call_frame(rng, recv.obj, step["m"], pool)
@@ -370,6 +377,7 @@ def impl(case):
         ev["args"] = args
         ev["callback_shares"] = len(CALLBACK_SHARES)
         ev["conversion_shares"] = list(CONVERSION_SHARES)
+        ev["arg_mutated"] = list(ARG_MUTATED)
         # (1) every pool object is byte-identical (the receiver of an in-place edit / group_by excepted as documented)
         mutated = []
         for i, e in enumerate(pool):
@@ -487,6 +495,8 @@ def judge(ctx, case, obs, mouts):
         for sh in ev.get("poke_back_seen", []):
             who = "receiver" if sh["is_recv"] else "argument"
             ctx.violation("oracle", f"edit-observed-back:{m}:{who}", f"step {ev['step']} {ev.get('desc', m)}: an in-place edit of the {who} changed the result", case, ev)
+        if ev.get("arg_mutated"):
+            ctx.violation("oracle", f"mutates:{m}:argument:mask", f"step {ev['step']} {ev.get('desc', m)}: the caller's own condition vector was changed / shared ({ev['arg_mutated']})", case, ev)
         if ev.get("conversion_shares"):
             ctx.violation("oracle", f"edit-observed:{m}:converted-object", f"step {ev['step']} {m}: an in-place edit of the frame changed the object {m}() had returned", case, ev)
         if ev.get("callback_shares"):
